@@ -73,6 +73,7 @@ package graph
 //@   ensures  forall(m, HashM, imp(old(allocated(m)), unchanged(m)))
 //@   assigns  Graph.adjacencyOut, Graph.adjacencyIn, Graph.hash, Outer, HashM
 //@   modifies g, g.adjacencyOut, g.adjacencyIn, g.hash, forall(m, Inner, infoot(g, m))
+//@   quietframe
 
 //@ func (*Graph).Add
 //@   requires wf0(g)
@@ -87,6 +88,7 @@ package graph
 //@   ensures  [inner-stable] innerStable(g)
 //@   assigns  Graph.adjacencyOut, Graph.adjacencyIn, Graph.hash, Outer, HashM, Inner
 //@   modifies g, g.adjacencyOut, g.adjacencyIn, g.hash, forall(m, Inner, infoot(g, m))
+//@   quietframe
 
 //@ func (*Graph).AddOverwrite
 //@   requires wf0(g)
@@ -101,6 +103,7 @@ package graph
 //@   ensures  [inner-stable] innerStable(g)
 //@   assigns  Graph.adjacencyOut, Graph.adjacencyIn, Graph.hash, Outer, HashM, Inner
 //@   modifies g, g.adjacencyOut, g.adjacencyIn, g.hash, forall(m, Inner, infoot(g, m))
+//@   quietframe
 
 //@ func (*Graph).Remove
 //@   requires wf0(g)
@@ -114,6 +117,7 @@ package graph
 //@   ensures  [inner-stable] innerStable(g)
 //@   assigns  Outer, HashM, Inner
 //@   modifies g, g.adjacencyOut, g.adjacencyIn, g.hash, forall(m, Inner, infoot(g, m))
+//@   quietframe
 //@   loop 1 invariant g.adjacencyOut == old(g.adjacencyOut) && g.adjacencyIn == old(g.adjacencyIn) && g.hash == old(g.hash)
 //@   loop 1 invariant rmap1 == old(g.adjacencyOut[hc(v)]) && h == hc(v)
 //@   loop 1 invariant unchanged(g.hash) && unchanged(g.adjacencyOut) && unchanged(g.adjacencyIn)
@@ -138,6 +142,7 @@ package graph
 //@   ensures  result == old(g.hash[id])
 //@   assigns  Graph.adjacencyOut, Graph.adjacencyIn, Graph.hash, Outer, HashM
 //@   modifies g, g.adjacencyOut, g.adjacencyIn, g.hash, forall(m, Inner, infoot(g, m))
+//@   quietframe
 
 //@ func (*Graph).AddEdge
 //@   requires wf0(g)
@@ -150,6 +155,7 @@ package graph
 //@   ensures  [inner-stable] innerStable(g)
 //@   assigns  Graph.adjacencyOut, Graph.adjacencyIn, Graph.hash, Outer, HashM, Inner
 //@   modifies g, g.adjacencyOut, g.adjacencyIn, g.hash, forall(m, Inner, infoot(g, m))
+//@   quietframe
 
 //@ func (*Graph).AddEdgeWeighted
 //@   requires wf0(g)
@@ -162,6 +168,7 @@ package graph
 //@   ensures  [inner-stable] innerStable(g)
 //@   assigns  Graph.adjacencyOut, Graph.adjacencyIn, Graph.hash, Outer, HashM, Inner
 //@   modifies g, g.adjacencyOut, g.adjacencyIn, g.hash, forall(m, Inner, infoot(g, m))
+//@   quietframe
 
 //@ func (*Graph).RemoveEdge
 //@   requires wf0(g)
@@ -173,6 +180,7 @@ package graph
 //@   ensures  [inner-stable] innerStable(g)
 //@   assigns  Graph.adjacencyOut, Graph.adjacencyIn, Graph.hash, Outer, HashM, Inner
 //@   modifies g, g.adjacencyOut, g.adjacencyIn, g.hash, forall(m, Inner, infoot(g, m))
+//@   quietframe
 
 // ---------------------------------------------------------------- queries
 
@@ -198,6 +206,7 @@ package graph
 //@   ensures  [complete] forall(k, any, imp(has(g.hash, k), exists(i, int, 0 <= i && i < len(result) && result[i] == g.hash[k])))
 //@   assigns  []Vertex
 //@   modifies nothing
+//@   quietframe
 //@   loop 1 invariant sliceskept([]Vertex) && fresh(result)
 //@   loop 1 invariant len(result) == len(seen1) && soff(result) == 0
 //@   loop 1 invariant forall(k, any, imp(in(k, seen1), has(g.hash, k)))
@@ -213,6 +222,7 @@ package graph
 //@   ensures  [complete] forall(b, any, imp(edge(g, hc(v), b), exists(i, int, 0 <= i && i < len(result) && result[i] == g.hash[b])))
 //@   assigns  []Vertex
 //@   modifies nothing
+//@   quietframe
 //@   loop 1 invariant sliceskept([]Vertex) && fresh(result)
 //@   loop 1 invariant len(result) == len(seen1) && soff(result) == 0 && rmap1 == edges && edges == g.adjacencyOut[hc(v)]
 //@   loop 1 invariant forall(k, any, imp(in(k, seen1), has(edges, k)))
@@ -229,6 +239,7 @@ package graph
 //@   ensures  [complete] forall(a, any, imp(edge(g, a, hc(v)), exists(i, int, 0 <= i && i < len(result) && result[i] == g.hash[a])))
 //@   assigns  []Vertex
 //@   modifies nothing
+//@   quietframe
 //@   loop 1 invariant sliceskept([]Vertex) && fresh(result)
 //@   loop 1 invariant len(result) == len(seen1) && soff(result) == 0 && rmap1 == edges && edges == g.adjacencyIn[hc(v)]
 //@   loop 1 invariant forall(k, any, imp(in(k, seen1), has(edges, k)))
@@ -244,6 +255,7 @@ package graph
 //@   ensures  forall(x, *Graph, imp(old(allocated(x)) && x != g, x.adjacencyOut == old(x.adjacencyOut) && x.adjacencyIn == old(x.adjacencyIn) && x.hash == old(x.hash)))
 //@   assigns  Graph.adjacencyOut, Graph.adjacencyIn, Graph.hash, Outer, HashM
 //@   modifies g, g.adjacencyOut, g.adjacencyIn, g.hash, forall(m, Inner, infoot(g, m))
+//@   quietframe
 
 // Copy: same view, disjoint footprint, original untouched.
 //@ func (*Graph).Copy
@@ -256,6 +268,7 @@ package graph
 //@   ensures  [original-untouched] heapKept()
 //@   assigns  Graph.adjacencyOut, Graph.adjacencyIn, Graph.hash, Outer, HashM, Inner
 //@   modifies nothing
+//@   quietframe
 //@   loop 1 invariant heapKept()
 //@   loop 1 invariant copied(g2.adjacencyOut, g.adjacencyOut, seen1)
 //@   loop 1 invariant forall(k, any, imp(in(k, seen1), has(g.adjacencyOut, k)))
@@ -402,6 +415,7 @@ package graph
 //@   ensures  [graph-kept] heapKept() && fresh(distTo) && fresh(edgeTo)
 //@   assigns  Inner, HashM
 //@   modifies nothing
+//@   quietframe
 //@   loop 1 invariant heapKept() && fresh(distTo) && fresh(edgeTo) && distTo != nil && edgeTo != nil
 //@   loop 1 invariant forall(v, any, has(edgeTo, v) == has(distTo, v))
 //@   loop 1 invariant forall(v, any, imp(has(distTo, v), has(g.hash, hc(edgeTo[v])) && edgeTo[v] == g.hash[hc(edgeTo[v])] && tpos(hc(edgeTo[v])) < idx1 && edge(g, hc(edgeTo[v]), v) && distTo[v] == distTo[hc(edgeTo[v])] + wgt(g, hc(edgeTo[v]), v)))
@@ -518,6 +532,7 @@ package graph
 //@   ensures  [original-untouched] heapKept()
 //@   assigns  Graph.adjacencyOut, Graph.adjacencyIn, Graph.hash, Outer, HashM, Inner, []Vertex, []interface{}, kpos, spos
 //@   modifies nothing
+//@   quietframe
 //@   after "S = append(S, v)" set spos = update(spos, v, len(S)-1)
 //@   after "L = append(L, g.hash[n])" set kpos = update(kpos, n, len(L)-1)
 //@   after "S = append(S, m)" set spos = update(spos, m, len(S)-1)
@@ -629,6 +644,7 @@ package graph
 //@   ensures  [frame] sliceskept([]Vertex) && (fresh(result) || len(result) == 0)
 //@   assigns  []Vertex
 //@   modifies nothing
+//@   quietframe
 //@   loop 1 invariant sliceskept([]Vertex) && (fresh(result) || result == nil) && soff(result) == 0
 //@   loop 1 invariant imp(len(result) > 0, result[0] == target) && imp(len(result) == 0, current == target)
 //@   loop 1 invariant forall(i, int, imp(0 <= i && i < len(result), result[i] != nil))
@@ -691,6 +707,7 @@ package graph
 //@   ensures  [graph-kept] graphKept() && fresh(distTo) && fresh(edgeTo)
 //@   assigns  ItemM, VisitM, Inner, HashM, []*distQueueItem, *distQueue, distQueueItem.v, distQueueItem.distance, distQueueItem.previous, distQueueItem.index, distQueueItem.snap, fin, frozen, cnt
 //@   modifies nothing
+//@   quietframe
 //@   before "visited := map" set fin = emptyset(any)
 //@   before "visited := map" set frozen = false
 //@   before "visited := map" set cnt = 0
